@@ -59,23 +59,28 @@ CaseClosure(s) == s \cup {UpC(c) : c \in s} \cup {LoC(c) : c \in s}
 AtomSet(re, k) == IF re.icase THEN CaseClosure(SetOf(re.atoms[k][1])) ELSE SetOf(re.atoms[k][1])
 
 FAILV == 99
+Lazy == {"??", "*?", "+?"}
 RECURSIVE Run(_, _, _)
 Run(t, i, set) == IF i <= Len(t) /\ t[i] \in set THEN 1 + Run(t, i + 1, set) ELSE 0
 EndOk(t, i, dollar, full) ==
   IF full THEN i = Len(t) + 1
   ELSE ~dollar \/ i = Len(t) + 1 \/ (i = Len(t) /\ t[i] = NL)
-RECURSIVE M(_, _, _, _, _), Try(_, _, _, _, _, _, _)
+RECURSIVE M(_, _, _, _, _), Try(_, _, _, _, _, _, _), TryUp(_, _, _, _, _, _, _)
 \* Python's backtracking matcher: the end position of the match of atoms k.. at position i, or FAILV
 M(re, k, t, i, full) ==
   IF k > Len(re.atoms) THEN (IF EndOk(t, i, re.dollar, full) THEN i ELSE FAILV)
   ELSE LET q == re.atoms[k][2]
            r == Run(t, i, AtomSet(re, k))
-           lo == IF q \in {"1", "+"} THEN 1 ELSE 0
-           hi == IF q \in {"1", "?"} THEN (IF r >= 1 THEN 1 ELSE 0) ELSE r
-       IN IF hi < lo THEN FAILV ELSE Try(re, k, t, i, full, hi, lo)
+           lo == IF q \in {"1", "+", "+?"} THEN 1 ELSE 0
+           hi == IF q \in {"1", "?", "??"} THEN (IF r >= 1 THEN 1 ELSE 0) ELSE r
+       IN IF hi < lo THEN FAILV
+          ELSE IF q \in Lazy THEN TryUp(re, k, t, i, full, lo, hi) ELSE Try(re, k, t, i, full, hi, lo)
 Try(re, k, t, i, full, n, lo) ==          \* greedy: n = hi, hi-1, ..., lo
   LET e == M(re, k + 1, t, i + n, full)
   IN IF e # FAILV THEN e ELSE IF n = lo THEN FAILV ELSE Try(re, k, t, i, full, n - 1, lo)
+TryUp(re, k, t, i, full, n, hi) ==        \* lazy (??, *?, +?): n = lo, lo+1, ..., hi
+  LET e == M(re, k + 1, t, i + n, full)
+  IN IF e # FAILV THEN e ELSE IF n = hi THEN FAILV ELSE TryUp(re, k, t, i, full, n + 1, hi)
 RECURSIVE Search(_, _, _)
 \* leftmost match starting at s or later: <<start, end>> or <<>>
 Search(re, t, s) ==
@@ -85,7 +90,7 @@ Search(re, t, s) ==
 Matches(re, t) == Search(re, t, 1) # <<>>
 \* "$" in a full match may still stop before a final new-line only if nothing is left: it cannot
 FullMatch(re, t) == M(re, 1, t, 1, TRUE) # FAILV
-Nullable(re) == \A k \in 1..Len(re.atoms) : re.atoms[k][2] \in {"?", "*"}
+Nullable(re) == \A k \in 1..Len(re.atoms) : re.atoms[k][2] \in {"?", "*", "??", "*?"}
 RECURSIVE Sub(_, _, _, _)
 \* left-to-right non-overlapping substitution (regexes that cannot match the empty string)
 Sub(re, t, s, repl) ==
@@ -162,6 +167,9 @@ Regexes == [j \in 1..(Len(AtomSeqs) * Len(Anchors)) |->
               LET as == AtomSeqs[((j - 1) \div Len(Anchors)) + 1]  an == Anchors[((j - 1) % Len(Anchors)) + 1]
               IN Re(an[1], as, an[2])]
            \o << ReI(<<<<"a", "+">>>>), ReI(<<<<"A", "1">>, <<"b", "1">>>>) >>
+           \* lazy quantifiers: the FIRST match found is the shortest, a FULL match must still be found by backtracking
+           \o << Re(FALSE, <<<<"a", "+?">>>>, FALSE), Re(FALSE, <<<<"a", "+?">>, <<"b", "?">>>>, FALSE),
+                 Re(FALSE, <<<<"dot", "*?">>, <<"b", "1">>>>, FALSE), Re(FALSE, <<<<"a", "??">>, <<"dot", "1">>>>, FALSE) >>
 NonNullable == SelectSeq(Regexes, LAMBDA r : ~Nullable(r))
 
 LineMatchers == << <<"lnum", "==", 1>>, <<"lnum", ">=", 2>>, <<"lnum", "!=", 2>>, <<"lnum", "<", 1>>,
